@@ -257,7 +257,7 @@ def cfg(frags, emit):
 
 def run(prop, tier, replay=None):
     out = Outcome(prop, tier)
-    frags = '{"F2p", "F4p", "F3x", "F2y", "F3a", "F1p"}' if tier == "quick" else '{"F1p", "F2p", "F3p", "F4p", "F3r", "F3q", "F3a", "F2b", "F4b", "F3x", "F2y"}'
+    frags = '{"F2p", "F4p", "F3e", "F3x", "F2y", "F3a", "F1p"}' if tier == "quick" else '{"F1p", "F2p", "F3p", "F4p", "F3r", "F3e", "F3q", "F3a", "F2b", "F4b", "F3x", "F2y"}'
     out.rule = ("cases = every state of MC_Cif: round trips (fragment x 3 cells x inside/outside/boundary x fractional/Cartesian) and "
                 "reader-only documents (10 space-group spellings x fractional/Cartesian x 9 coordinate-token offsets x 0..2 bonds); non-trivial = all")
     if replay:
